@@ -592,7 +592,9 @@ class Parser:
         if y == ('id', 'menu') and name == 'name':
             self.next()
             return ('menuname', self.objid())
-        if y[0] == 'id' and y[1] in OBJ_KINDS and self.peek(1) != ('op', '('):
+        if y[0] == 'id' and y[1] in OBJ_KINDS and (self.peek(1) != ('op', '(') or y[1] in ('sprite', 'sound')):
+            # sprite (i + 1): a parenthesised identifier; cast(...) with a parenthesis is read as the call form and
+            # identified with the object form by same_object (cast(x) IS the cast member x)
             self.next()
             return ('objprop', y[1], self.objid(), name)
         return ('accessor', self.chunk_base(), name)
@@ -850,6 +852,26 @@ def parse_block(lines, pos, scope, enders):
         else:
             raise SpecError('statement expected: %r' % (ln,))
     return out
+
+def same_object(x):
+    """cast(x) and cast x denote the same member: one normal form for 'the p of cast(x)' / 'set the p of cast(x)'"""
+    if isinstance(x, tuple):
+        x = tuple(same_object(y) for y in x)
+        if x and x[0] == 'accessor' and isinstance(x[1], tuple) and x[1][:2] == ('call', 'cast') and len(x[1][2]) == 1:
+            return ('objprop', 'cast', x[1][2][0], x[2])
+        if x and x[0] == 'setaccessor' and isinstance(x[1], tuple) and x[1][:2] == ('call', 'cast') and len(x[1][2]) == 1:
+            return ('setobjprop', 'cast', x[1][2][0], x[2], x[3])
+        # the p of field x: the object form and the accessor on the field expression are the same text
+        if x and x[0] == 'accessor' and isinstance(x[1], tuple) and x[1][0] == 'field':
+            return ('objprop', 'field', x[1][1], x[2])
+        if x and x[0] == 'setaccessor' and isinstance(x[1], tuple) and x[1][0] == 'field':
+            return ('setobjprop', 'field', x[1][1], x[2], x[3])
+        return x
+    if isinstance(x, list):
+        return [same_object(y) for y in x]
+    if isinstance(x, dict):
+        return {k: same_object(v) for k, v in x.items()}
+    return x
 
 def strip_script(script):
     """the part of a source script that its text determines (for comparison with parse_lingo output)"""
@@ -1150,14 +1172,12 @@ KEY_PROPS = sorted((set(JS_KEY_OWNER) - {'updateMovieEnabled', 'frameLabel'}) | 
                                                                                  'shiftDown', 'commandDown', 'optionDown', 'controlDown'})
 
 def js_id(e):
-    """object ids are written raw (the translator prints the operand's name)"""
+    """object ids: a number or a name is written as it is, anything else is the expression"""
     if e[0] == 'int':
         return str(e[1])
-    if e[0] in ('loc', 'par', 'glob', 'prop'):
-        return e[1]
     if e[0] == 'str':
         return '"%s"' % e[1]
-    raise SpecError('object id %r' % (e,))
+    return js_e(e)
 
 def js_target(t):
     if t[0] == 'loc':
